@@ -135,11 +135,8 @@ def parse_config_file(path: str, kwargs: dict):
         elif key.lower() == "out":
             kwargs["outfile"] = val
 
-        elif val.lower() == "true":
-            kwargs[key.lower()] = True
-
-        elif val.lower() == "false":
-            kwargs[key.lower()] = False
+        elif key.lower() in ["private", "align", "cwd", "magnet"]:
+            kwargs[key.lower()] = val.lower() == "true"
 
         else:
             kwargs[key.lower()] = val
